@@ -5,7 +5,9 @@
 From Coq Require Import String List Morphisms.
 Require Import SC3.proofs.NumTac SC3.gen.Gen_builtins SC3.proofs.C12_num SC3.model.TaskQ SC3.model.Event.
 Require Import SC3.proofs.C09_order SC3.proofs.C14_keys SC3.proofs.C14_play SC3.proofs.C14_stream SC3.proofs.C14_pdur.
-Require Import SC3.proofs.C14_ppar SC3.proofs.C14_merge SC3.proofs.C14_mergethm SC3.proofs.C14_parfinal SC3.proofs.C14_ctl SC3.proofs.C14_embed SC3.proofs.C14_open.
+Require Import SC3.proofs.C14_ppar SC3.proofs.C14_merge SC3.proofs.C14_mergethm SC3.proofs.C14_parfinal SC3.proofs.C14_ctl SC3.proofs.C14_embed SC3.proofs.C14_open SC3.proofs.C14_actions.
+Require Import SC3.gen.Gen_proto.
+Open Scope list_scope.
 From Coq Require Import Sorting.
 Import ListNotations.
 Open Scope Q_scope.
@@ -79,6 +81,18 @@ Theorem note_play_commands : forall K lib lat now node e d,
        x = vnum (ev_call K (put "has_gate" (VBool (d_has_gate d)) (put "freq" (VNum (detuned_freq K e)) e)) a)) /\
   (forall t, 0 <= t -> stamp now t == now + t).
 Proof. exact note_play_commands_l. Qed.
+
+(* every accepted spelling of the add action: the table regenerated from sc3/synth/node.py (Node.add_actions: 15 names
+   and letters, 5 numbers) gives, for every key, the number the model sends -- the Server Command Reference's 0 head,
+   1 tail, 2 before, 3 after, 4 replace -- and the model accepts no name outside that table *)
+Theorem add_actions_conform :
+  Forall (fun p => action_number (VSym (fst p)) = snd p) add_actions_s /\
+  Forall (fun p => action_number (VNum (I (fst p))) = snd p) add_actions_i /\
+  List.length add_actions_s = 15%nat /\ List.length add_actions_i = 5%nat.
+Proof. exact add_actions_conform_l. Qed.
+
+Theorem add_actions_complete : forall s, action_number (VSym s) <> (-1)%Z -> In s (map fst add_actions_s).
+Proof. exact add_actions_complete_l. Qed.
 
 (* note_play_commands holds for EVERY play of an event object, not only the first: its guard cached_params = None (the
    control list is computed from the event's current keys) holds when no msg_params was given, and -- because play marks
